@@ -140,6 +140,23 @@ CHECKS = {
         technique="TLA+ spec (Shell.tla) model-checked with TLC; impl->spec validation of real converter output by the "
                   "shell machine (ShellTrace.tla); /bin/sh and bash as independent environment",
     ),
+    "C09": dict(
+        category="model_checking",
+        text="Build.tla: the build session at the code's grain (op/value/shape caches, static import resolution as a "
+             "sub-machine, the link work list, per-VM import stacks, rewrite of relative paths, out locks, assertion "
+             "collector, artifacts on disk; paths as component sequences with path.rs normalisation) with named deviations "
+             "for every recorded defect. With Deviations = {} TLC checks ResolveRelToFile, EvalOnce, EvalOrder, SameValue "
+             "and CycleIsDiagnostic over all two-file projects with 7 syntactic positions x 3 spellings x 3 layouts x 3 "
+             "working directories and all import graphs on 3 files incl. cyclic ones (thorough: 4 files, sampled 6/8). "
+             "Replay: the projects are materialised and built with the ucg binary from every working directory (outcome, "
+             "diagnostic class, artifact tree, TRACE sequence, no crash, byte identity across cwds); the import / ops-cache "
+             "/ shape-cache / static-cycle events recorded by the `verif` hooks are validated against BuildTrace.tla.",
+        design_ref="DESIGN.md §4.8, §5/C09, §8.2, §11.7",
+        note="Trusted: TLC, the project renderer in vp/buildproj.py (static visibility re-checked by the shape_cache "
+             "events), the ucg binary's exit status/stderr classes. Resource-exhaustion runs are excluded from step-by-step "
+             "comparison.",
+        technique="TLA+ spec (Build.tla) model-checked with TLC; spec->impl replay through the ucg binary; impl->spec trace validation of recorded build-session events (BuildTrace.tla)",
+    ),
     "C10": dict(
         category="model_checking",
         text="Gen/Eval/Translate/VM with scope probes: programs in which a module body refers to a binding of the "
@@ -177,6 +194,32 @@ CHECKS = {
              "columns after multi-byte text; a comment glued to `/`. Triples use 4 of the 6 separators.",
         technique="TLA+ spec (Lexer.tla) model-checked and simulated with TLC; spec->impl replay of every explored input",
     ),
+    "C13": dict(
+        category="model_checking",
+        text="Build.tla (test invocation): VerdictIffAsserts, ExitIffFail, EachAssertOnce and BatchEqualsSolo are "
+             "model-checked over runs of 1..3 *_test.ucg files with <=3 statements over {ok, fail, malformed assert, "
+             "run-time error, type error} in every order incl. a repeated file (thorough: 3 x <=2 exhaustively, sampled 4 "
+             "files x 8 statements). Replay through `ucg test`: per-file Pass/Fail/Err lines, the summary, the assertion "
+             "log by marker (each assertion exactly once) and the exit status; the `assert` events (index, okay, wellformed) "
+             "are validated against BuildTrace.tla.",
+        design_ref="DESIGN.md §4.8, §5/C13, §11.7",
+        note="Trusted: TLC, vp/buildproj.py, the ucg binary's output format. No log is compared for files whose build "
+             "fails; the running number of an assertion is a don't-care.",
+        technique="TLA+ spec (Build.tla) model-checked with TLC; spec->impl replay through the ucg binary; impl->spec trace validation of recorded build-session events (BuildTrace.tla)",
+    ),
+    "C14": dict(
+        category="model_checking",
+        text="Build.tla (OutLock/OutCreate/OutWriteOk/OutWriteFail): OneArtifact, SecondOutIsError and AllOrNothing are "
+             "model-checked over every registered converter (cross-checked with the harness `converters` op) x convertible / "
+             "inconvertible values x pre-existing artifact or not x 0..2 (thorough 3) out statements, each built twice. "
+             "Replay with the ucg binary in a scratch directory: listing before/after, artifact bytes against the string the "
+             "same build binds for `convert <fmt> <value>`, exit status and diagnostic class; the out_lock / out_create / "
+             "out_done events are validated against BuildTrace.tla.",
+        design_ref="DESIGN.md §4.8, §5/C14, §11.7",
+        note="Trusted: TLC, vp/buildproj.py, harness eval for the convert string. Whether the first artifact stays after a "
+             "second-out error is accepted either way.",
+        technique="TLA+ spec (Build.tla) model-checked with TLC; spec->impl replay through the ucg binary; impl->spec trace validation of recorded build-session events (BuildTrace.tla)",
+    ),
     "C15": dict(
         category="model_checking",
         text="DataModel.tla: FromDoc (ints stay ints, other numbers floats; TOML has no null), the importers transcribed "
@@ -193,6 +236,19 @@ CHECKS = {
              "counted in the evidence, not judged. Key order is not compared.",
         technique="TLA+ spec (DataModel.tla) model-checked with TLC; spec->impl replay of every explored document and of "
                   "the include table; independent encoders and decoders as environment",
+    ),
+    "C16": dict(
+        category="model_checking",
+        text="Build.tla: BatchEqualsSolo (outcome, diagnostic class and artifact content of every file equal what `Solo(f)`, "
+             "a cache-free denotation, gives) is model-checked over projects of 2 x <=2 and 3 x <=1 files (entry files with "
+             "out, shared libraries, files both built and imported, failing files; thorough: a 3-level mix and sampled 4-/6-"
+             "file projects), every permutation of the argument list, each invocation run twice. Replay: each sampled case "
+             "as a batch (twice), as one fresh process per file on pristine copies, every fourth also as `ucg build -r .`; "
+             "per-file outcome, diagnostic class and artifact bytes are compared between batch and solo and with the "
+             "specification; the cache and lock events are validated against BuildTrace.tla.",
+        design_ref="DESIGN.md §4.8, §5/C16, §11.7",
+        note="Trusted: TLC, vp/buildproj.py, the ucg binary's exit status/stderr classes.",
+        technique="TLA+ spec (Build.tla) model-checked with TLC; spec->impl replay through the ucg binary; impl->spec trace validation of recorded build-session events (BuildTrace.tla)",
     ),
     "C17": dict(
         category="model_checking",
